@@ -10,7 +10,9 @@ package main
 //   - testscript.go, condition(): the condition names compared with `cond == "..."` and the
 //     prefixes tested with strings.HasPrefix(cond, "...");
 //   - Fatalf: the text in front of the file name in the failure line of the log ("FAIL: ");
-//   - cmd.go: the source text of the backgroundSpecifier regular expression.
+//   - cmd.go: the source text of the backgroundSpecifier regular expression;
+//   - imports/build.go: the keys of KnownOS, KnownArch and UnixOS, which condition() consults for the
+//     GOOS / GOARCH / unix conditions, and the source text of goVersionRegex.
 //
 // Every helper here is prefixed tsr to stay clear of the other groups of this package.
 
@@ -160,6 +162,25 @@ func genTsRun(g *gen) {
 		}
 		g.emitBytesList("cond_exact_names", "testscript condition(): names compared with cond == \"...\"", exact)
 		g.emitBytesList("cond_prefixes", "testscript condition(): strings.HasPrefix(cond, \"...\")", prefixes)
+	}
+
+	// ---- the name lists condition() consults (imports.KnownOS / KnownArch / UnixOS) and goVersionRegex
+	g.emitKnown("known_os_names", "imports", "KnownOS", "goosList")
+	g.emitKnown("known_arch_names", "imports", "KnownArch", "goarchList")
+	g.emitKnown("unix_os_names", "imports", "UnixOS", "unixList")
+	if e := g.valueExpr(dir, "goVersionRegex"); e != nil {
+		src := ""
+		if ce, ok := e.(*ast.CallExpr); ok && len(ce.Args) == 1 {
+			src, _ = tsrStr(ce.Args[0])
+		}
+		if src == "" {
+			g.fail("goVersionRegex is not regexp.MustCompile(<literal>) any more")
+		} else {
+			// (the text is not repeated in the comment: it contains the characters that close a Coq comment)
+			fmt.Fprintf(&g.buf, "(* the source text of testscript.goVersionRegex *)\nDefinition go_version_regex : list byte := %s.\n\n", coqBytes(src))
+		}
+	} else {
+		g.fail("testscript.goVersionRegex not found")
 	}
 
 	// ---- Fatalf: "FAIL: %s:%d: %s\n"
